@@ -176,6 +176,7 @@ def run_shard(shard, ctx):
     elif kind == 'serial-noeffect':
         serial_noeffect(acc)
         serial_malformed(acc)
+        serial_with_hydrogens(acc)
     return acc
 
 
@@ -234,6 +235,57 @@ def serial_malformed(acc):
             if got != 'ValueError':
                 acc.viols.append(Viol(dict(kind='serial-malformed', field=field, where=where), 'serial-noeffect', 'malformed-serial-accepted-by-reader/%s' % (
                     'asterisks' if set(field.strip()) == {'*'} else 'other'), 'serial field %r: %s' % (field, got or 'accepted'), inputs=dict(pdb=gen.to_text(atoms))))
+
+
+def serial_with_hydrogens(acc):
+    """Structures that carry hydrogens, run with --keep-protons --protonate-all (kept hydrogens stay bonded but are not renumbered
+    with the heavy atoms): every start value of the numbering gives the same result."""
+    from . import c01, c07
+    from .. import cmp
+    bases = []
+    lib = gen.library()
+    for rtype, where in (('GLU', ('3SGB', 'I', 12)), ('GLU', ('1FTJ', 'A', 26)), ('ASP', None), ('LYS', None)):
+        # a dipeptide X-GLY cut from a real chain, with every hydrogen the program can build (--protonate-all) written back; the two
+        # glutamates are the most compact ones of the library (amino N within 2.9 / 3.8 A of the carboxylate, four bonds away)
+        if where:
+            key, ch, i = where
+        else:
+            for key, ch in (('3SGB', 'E'), ('1HPX', 'A'), ('1FTJ', 'A')):
+                try:
+                    i = lib.find(key, ch, rtype, 0)
+                    break
+                except IndexError:
+                    continue
+        res = lib.protein_residues(key, ch)
+        first = [a.clone() for a in res[i][1]]
+        second = c01.add_oxt([a.clone() for a in res[i + 1][1] if a.name in gen.BACKBONE])
+        for a in second:
+            a.resname = 'GLY'
+        for a in first + second:
+            a.chain, a.alt, a.icode = 'A', ' ', ' '
+        s0 = gen.S(first + second)
+        for full in (True, False):
+            fed = c07.hydrogens_fed_back(s0, pk.run(gen.to_text(s0), ('--protonate-all',) if full else ()))
+            if fed is not None:
+                bases.append(('%s-GLY/%s%d/%s' % (rtype, key, i, 'all-hydrogens' if full else 'polar-hydrogens'), gen.S(fed)))
+    for name, base in bases:
+        for opts in (('--keep-protons', '--protonate-all'), ('--keep-protons',)):
+            ref = pk.record(pk.run(gen.to_text(base.copy().renumber_serials(1000)), opts))
+            for start in list(range(-25, 6)) + [99990, 99995]:
+                atoms = base.copy()
+                for i, a in enumerate(atoms.atoms):
+                    n = start + i
+                    a.serial = '%5d' % n if n <= 99999 else 'A%04d' % (n - 100000)
+                acc.n += 1
+                acc.nontrivial_n += 1
+                rec = pk.record(pk.run(gen.to_text(atoms), opts))
+                diff = cmp.diff_records(ref, rec, tol=0.0)
+                acc.outcomes['serial-start-same' if not diff else 'serial-start-diff'] += 1
+                if diff:
+                    acc.viols.append(Viol(dict(kind='serial-h', base=name, start=start, opts=list(opts)), 'serial-noeffect',
+                                          'serial-influences-result/with-kept-hydrogens/' + diff[0][0], 'free %s numbered from %d, options %s: %s' % (
+                                              name, start, ' '.join(opts), str(diff[0])[:250]), inputs=dict(pdb=gen.to_text(atoms), opts=list(opts))))
+                    break
 
 
 def _c08(d):
@@ -311,6 +363,11 @@ def run_case(case, ctx, acc):
             bad = a + 1 != b
         if bad:
             acc.viols.append(Viol(case, 'monotone', case['ck'], '%r %r' % (a, b)))
+    elif k == 'serial-h':
+        sub = Acc()
+        serial_with_hydrogens(sub)
+        acc.n += sub.n
+        acc.viols.extend(v for v in sub.viols if v['case'] == case)
     elif k == 'serial-malformed':
         sub = Acc()
         serial_malformed(sub)
